@@ -264,6 +264,7 @@ func (p *Prog) runProperty(prop, tier string, timeout int) *checkRun {
 			}
 		}
 	}
+	queries = append(queries, p.lemmaQueries(prop)...)
 	dir := filepath.Join(verifDir, "out", "smt", prop)
 	os.RemoveAll(dir)
 	run.results = solveAll(queries, dir, timeout, tier == "thorough", 16)
